@@ -131,6 +131,11 @@ def Ref.anyOfType (r : Ref) (c : Cls) : Bool :=
   | some ⟨_, e⟩ => anyHolds c e
   | none => false
 
+/-- `ref.identifier` of a variable -/
+def Ref.identifier : Ref → Option Char
+  | some ⟨_, .var _ x⟩ => some x
+  | _ => none
+
 /-- `ref.value` of a constant -/
 def Ref.value : Ref → Option Rat
   | some ⟨_, .const _ v⟩ => some v
@@ -153,11 +158,12 @@ def numEq (v : Option Rat) (c : Int) : Bool :=
 
 /-! ### util.py as seen from the rule classifiers
 
-`get_term_ex` and `factor_add_terms_ex` are NOT translated: they are the hand-written model
-functions `getTermEx` / `factorAddTermsEx` (tied to the code by the correspondence runs of C01,
-C08 and C16).  The classifiers that call them are translated with these as externals. -/
+`factor_add_terms_ex` is NOT translated: it is the hand-written model function `factorAddTermsEx`
+(tied to the code by the correspondence runs of C01, C08 and C16); the classifier that calls it is
+translated with it as an external.  `get_term_ex` IS translated; `Ref.get_term_ex` below is its
+specification in terms of the model's `getTermEx` (`get_term_ex_agree`). -/
 
-/-- `get_term_ex(ref)`; `None` for `None` -/
+/-- specification of `get_term_ex(ref)`; `None` for `None` -/
 def Ref.get_term_ex : Ref → Option TermEx
   | some ⟨k, e⟩ => getTermEx (parentIs .pow k) e
   | none => none
